@@ -359,9 +359,8 @@ func c16CheckString(ctx *engine.Ctx, rc any, s string, tag string) {
 		return
 	}
 	ctx.Nontrivial(1)
-	if d.String() != s {
-		ctx.Failf(rc, "parse-print-differs/"+tag, "Parse(%s).String() = %s", s, d.String())
-	}
+	// (whether a parsed-but-unextractable DID prints back identically is not decided by the
+	// property; for extractable ones the canonical clause below implies it)
 	pk, err, pan := safePubKey(d)
 	ctx.Eval(1)
 	if pan != nil {
